@@ -34,6 +34,7 @@ const char *K_BODYLESS = "C23/bodyless-method-body-not-consumed";
 const char *K_HOST = "C23/host-missing-or-duplicate-accepted";
 const char *K_TECL = "C23/te-cl-connection-not-closed";
 const char *K_HTAB = "C23/leading-htab-not-stripped";
+const char *K_CONNERR = "C23/connect-error-reply-keeps-connection";
 
 bool known_method(const std::string &m) { return method_type(m) != 0; }
 bool bodyless_method(const std::string &m) { return m == "HEAD" || m == "TRACE" || m == "M-SEARCH"; }
@@ -304,13 +305,16 @@ extern "C" int LLVMFuzzerTestOneInput(const uint8_t *data, size_t size) {
   Result R;
   for (int it = 0; it < 8; it++) {
     R = h9112::parse(stream, opt);
+    for (auto &m : R.msgs) if (bodyless_method(m.method) && (m.chunked || (m.has_cl && m.cl > 0))) m.may_reject = true;   // the server was told (ext_method_cmp) / knows the method carries no content: rejecting is fine, mis-framing is not
     const char *hit = nullptr; size_t at = 0;
     for (auto &m : R.msgs) {
       const char *k = key_for_msg(m, true);
       if (!k && (m.features & h9112::F_TE_CL)) k = K_TECL;
+      if (!k && m.method == "CONNECT" && m.may_reject) k = K_CONNERR;   // a refused CONNECT: the error reply does not end the connection
       if (k && verif_known(k)) { hit = k; at = m.begin; break; }
     }
     if (!hit && R.term == h9112::T_REJECT) { const char *k = key_for_reason(R.reason); if (verif_known(k)) { hit = k; at = R.term_pos; } }
+    if (!hit && R.term == h9112::T_REJECT && R.term_method == "CONNECT" && verif_known(K_CONNERR)) { hit = K_CONNERR; at = R.term_pos; }
     if (!hit) break;
     verif_known_skipped(hit); stream.resize(at);
   }
@@ -354,7 +358,8 @@ extern "C" int LLVMFuzzerTestOneInput(const uint8_t *data, size_t size) {
   CHECK(ref_after_eof.d.size() == m, "C23/delivery-on-eof", "a request was delivered only because the client half-closed: %s", show(ref_after_eof).c_str());
   for (size_t i = 0; i < n && i < m; i++) {
     bool only_htab; std::string df = diff_msg(o.d[i], R.msgs[i], &only_htab);
-    if (!df.empty()) { const char *k = key_for_msg(R.msgs[i], only_htab); VERIF_FAIL(k ? k : "C23/must-accept-mismatch", "request %zu differs from the RFC 9112 reference: %s\n   server: %s", i, df.c_str(), show(o.d[i]).c_str()); }
+    if (!df.empty()) { const char *k = key_for_msg(R.msgs[i], only_htab);
+      if (!k && R.msgs[i].method == "CONNECT" && R.msgs[i].may_reject && o.d[i].cmd != EVHTTP_REQ_CONNECT) k = K_CONNERR; VERIF_FAIL(k ? k : "C23/must-accept-mismatch", "request %zu differs from the RFC 9112 reference: %s\n   server: %s", i, df.c_str(), show(o.d[i]).c_str()); }
     if (R.msgs[i].must_close_after) CHECK(m <= i + 1, K_TECL, "request %zu carried both Transfer-Encoding and Content-Length; RFC 9112 6.1 requires closing the connection after responding, but %zu further request(s) were served on it", i, m - i - 1);
   }
   if (m < n) {
@@ -365,7 +370,8 @@ extern "C" int LLVMFuzzerTestOneInput(const uint8_t *data, size_t size) {
     const char *last = n ? key_for_msg(R.msgs[n - 1], false) : nullptr;
     switch (R.term) {
       case h9112::T_MAY: break;
-      case h9112::T_REJECT: VERIF_FAIL(key_for_reason(R.reason), "message %zu must be rejected (%s) but a request was delivered at/after it: %s", n, R.reason.c_str(), show(o.d[n]).c_str());
+      case h9112::T_REJECT: if (R.term_method == "CONNECT" && o.d[n].cmd != EVHTTP_REQ_CONNECT) VERIF_FAIL(K_CONNERR, "message %zu (CONNECT) is rejected (%s) as it must be, but the connection stays open and the bytes of the rejected message are parsed as a new request: %s", n, R.reason.c_str(), show(o.d[n]).c_str());
+        VERIF_FAIL(key_for_reason(R.reason), "message %zu must be rejected (%s) but a request was delivered at/after it: %s", n, R.reason.c_str(), show(o.d[n]).c_str());
       case h9112::T_INCOMPLETE: VERIF_FAIL(last ? last : "C23/delivered-incomplete", "the stream ends inside message %zu (%s) but the server delivered: %s", n, R.reason.c_str(), show(o.d[n]).c_str());
       case h9112::T_END: VERIF_FAIL(last ? last : "C23/delivered-beyond-stream", "the stream holds %zu message(s) but the server delivered %zu; extra: %s", n, m, show(o.d[n]).c_str());
     }
